@@ -27,9 +27,26 @@ package executor
 
 // IsRecordsEquals dereferences beforeImage.TableMeta when there are rows to compare; callers set the
 // table meta on both images before undoing (SQLUndoLog.SetTableMeta), which is outside this contract.
-//@ func compareRows
+// Row equality: compareRows answers 'equal' only if, for EVERY row of the reference image (keyed by its
+// primary-key text) the other image has a row under the same key and EVERY field of the reference row
+// was compared equal (datasource.DeepEqual, abstract: deq) with the field of that name in the other row.
+// k, f stand for an arbitrary row key and field name. Abstract: how rows are keyed (rowListToMap).
+//@ ext seata.apache.org/seata-go/pkg/datasource/sql/datasource.DeepEqual
+//@   ensures result == ufb("deq", x, y)
+//@ func rowListToMap
 //@   trusted
-//@   ensures true
+//@   ensures result != nil
+//@ func compareRows
+//@   prop C09
+//@   let k := some(string, "k")
+//@   let f := some(string, "f")
+//@   macro rowok(kk) := newRowMap[kk] != nil && (haskey(oldRowMap[kk], f) ==> ufb("deq", newRowMap[kk][f], oldRowMap[kk][f]))
+//@   loop 1 invariant rows-so-far: visited(k, 1) ==> rowok(k)
+//@   loop 2 invariant rows-so-far: visited(k, 1) && k != key ==> rowok(k)
+//@   loop 2 invariant this-row: newRow != nil && newRow == newRowMap[key] && oldRow == oldRowMap[key]
+//@   loop 2 invariant fields-so-far: visited(f, 2) ==> ufb("deq", newRow[f], oldRow[f])
+//@   at return: assert equal-means-every-field-of-every-reference-row-compared-equal: result0 && haskey(oldRowMap, k) ==> rowok(k)
+//@   may_panic
 //@ func IsRecordsEquals
 //@   prop C09
 //@   may_panic
